@@ -91,6 +91,25 @@ fn check_range(rep: &Report, f: i64, l: i64, s: i64) {
             Err(_) => if !known(rep, len_overflows(f, l, s)) { rep.violation("range iterator size_hint panics", d("size_hint", json!({}))); },
         }
     }
+    // the remaining length is exact after every step of the iteration (ExactSizeIterator), also once it is exhausted
+    if want_len <= 64 {
+        let r2 = catch_unwind(AssertUnwindSafe(|| {
+            let mut it = r.into_iter();
+            let mut bad: Option<(usize, (usize, Option<usize>))> = None;
+            for taken in 0..=(want_len as usize + 1) {
+                let left = (want_len as usize).saturating_sub(taken);
+                let h = it.size_hint();
+                if h != (left, Some(left)) && bad.is_none() { bad = Some((taken, h)); }
+                if it.next().is_none() && taken < want_len as usize && bad.is_none() { bad = Some((taken, h)); }
+            }
+            bad
+        }));
+        match r2 {
+            Ok(None) => {}
+            Ok(Some((taken, h))) => if !known(rep, len_overflows(f, l, s)) { rep.violation("range iterator reports a wrong remaining length during the iteration", d("size_hint", json!({"elements_taken": taken, "size_hint": format!("{:?}", h), "total": want_len.to_string()}))); },
+            Err(_) => if !known(rep, len_overflows(f, l, s)) { rep.violation("range iterator panics during the iteration", d("size_hint", json!({}))); },
+        }
+    }
     // conversion there and back, also over the wire
     let t: OwnedTerm = r.into();
     if ElixirRange::from_term(&t) != Some(r) { rep.violation("range does not convert back from its term", d("from_term", json!({}))); }
@@ -308,6 +327,42 @@ fn builders_and_proplists(rep: &Report) {
             for (k, v) in &expect { want_map.insert(atom(k), v.clone()); }
             if mb.build() != OwnedTerm::Map(want_map) { rep.violation("atom-key map builder output wrong", json!({"n": n})); }
         }
+    }
+    // every way of adding a pair: put/insert, *_atom, *_if, *_some, extend - the keyword list keeps every pair in order,
+    // the map keeps the last value per key, whatever mix of methods added them
+    {
+        const KS: [&str; 3] = ["a", "b", "a"];
+        for m0 in 0..5usize { for m1 in 0..5usize { for m2 in 0..5usize {
+            rep.add("evaluations", 1);
+            let methods = [m0, m1, m2];
+            let mut kw = KeywordListBuilder::new();
+            let mut mb = AtomKeyMapBuilder::new();
+            let mut want_list: Vec<RefVal> = vec![];
+            let mut want_map: Vec<(String, RefVal)> = vec![];
+            for (i, &m) in methods.iter().enumerate() {
+                let k = KS[i];
+                let v = 10 * (i as i64 + 1);
+                let (vt, vr): (OwnedTerm, RefVal) = if m == 1 { (OwnedTerm::atom("val"), RefVal::atom("val")) } else { (int(v), RefVal::int(v)) };
+                match m {
+                    0 => { kw = kw.put(k, v); mb = mb.insert(k, v); }
+                    1 => { kw = kw.put_atom(k, "val"); mb = mb.insert_atom(k, "val"); }
+                    2 => { kw = kw.put_if(true, k, v).put_if(false, "never", 0i64); mb = mb.insert_if(true, k, v).insert_if(false, "never", 0i64); }
+                    3 => { kw = kw.put_some(k, Some(v)).put_some("never", None::<i64>); mb = mb.insert_some(k, Some(v)).insert_some("never", None::<i64>); }
+                    _ => { kw = kw.extend(vec![(k, v)]); mb = mb.extend(vec![(k, v)]); }
+                }
+                let _ = vt;
+                want_list.push(RefVal::Tuple(vec![RefVal::atom(k), vr.clone()]));
+                want_map.retain(|(kk, _)| kk != k);
+                want_map.push((k.to_string(), vr));
+            }
+            let (kw_len, mb_len) = (kw.len(), mb.len());
+            let got_list = crate::denote::denote(&kw.build());
+            let got_map = crate::denote::denote(&mb.build());
+            let wl = RefVal::list(want_list.clone(), RefVal::Nil);
+            let wm = RefVal::map(want_map.iter().map(|(k, v)| (RefVal::atom(k), v.clone())).collect());
+            if !vcore::refval::exact_eq(&got_list, &wl) || kw_len != 3 { rep.violation("keyword list builder loses, reorders or alters a pair", json!({"methods": methods, "built": got_list.short(), "expected": wl.short(), "len": kw_len})); }
+            if !vcore::refval::exact_eq(&got_map, &wm) || mb_len != want_map.len() { rep.violation("atom-key map builder does not keep the last value per key", json!({"methods": methods, "built": got_map.short(), "expected": wm.short(), "len": mb_len})); }
+        } } }
     }
     // every name of the atom dictionary as a builder key and as an atom value: what reaches the wire is judged against
     // the string that was passed in (an oracle built with Atom::new would share a wrong name with the library)
